@@ -122,7 +122,9 @@ class Engine:
         self.suspend_hook = None
         self.yield_hooks = []
         self.extra_names = {}       # names visible in spec expressions (ghost helpers)
-        self.feas_timeout = 3000
+        self.feas_timeout = 400
+        self.no_prune = 0
+        self._ground_cache = {}
         self.accessed_param_keys = set()
         self.loop_counter = {}
         self.current_file = None
@@ -249,15 +251,36 @@ class Engine:
         self.stats["feas_checks"] += 1
         return s.check()
 
+    def is_ground(self, e):
+        key = e.get_id()
+        r = self._ground_cache.get(key)
+        if r is None:
+            r = True
+            seen, todo = set(), [e]
+            while todo:
+                x = todo.pop()
+                if x.get_id() in seen:
+                    continue
+                seen.add(x.get_id())
+                if z3.is_quantifier(x):
+                    r = False
+                    break
+                todo.extend(x.children())
+            self._ground_cache[key] = r
+        return r
+
     def feasible(self, st, cond=None):
-        cs = list(st.pc)
+        """Path feasibility on the quantifier-free part of the path condition (over-approximation:
+        a path kept alive here is still subject to the full hypotheses when obligations are discharged)."""
+        cs = [c for c in st.pc if self.is_ground(c)]
         if cond is not None:
             c = z3.simplify(cond)
             if z3.is_false(c):
                 return False
             if z3.is_true(c):
                 return True
-            cs.append(c)
+            if self.is_ground(c):
+                cs.append(c)
         r = self.check(cs)
         return r != z3.unsat
 
@@ -270,8 +293,11 @@ class Engine:
         if z3.is_false(c):
             yield st, False
             return
-        t_ok = self.feasible(st, c)
-        f_ok = self.feasible(st, z3.Not(c))
+        if self.no_prune:
+            t_ok = f_ok = True
+        else:
+            t_ok = self.feasible(st, c)
+            f_ok = self.feasible(st, z3.Not(c)) if t_ok else True
         if t_ok and f_ok:
             self.stats["forks"] += 1
             if self.stats["forks"] > self.max_paths:
@@ -481,12 +507,14 @@ class Engine:
                 else:
                     flat.append(it)
             kind = None
+            sets = [s for s in sets if not (isinstance(s, (VList, VTuple)) and not s.items)]
             for s in sets:
                 s2 = self.as_set(s, st1)
                 kind = s2.kind
             if kind is None:
                 if not flat:
-                    raise Untranslatable("empty set display", e)
+                    yield st1, VTuple([])
+                    continue
                 kind = SetK(flat[0].kind)
             t = z3.EmptySet(kind.elem.sort())
             for s in sets:
@@ -540,6 +568,10 @@ class Engine:
                 return self.models.seq_to_set(self, v, st)
             if isinstance(v.kind, Map):
                 return V(SetK(v.kind.key), v.kind.dom(v.term))
+        from .models import VIter
+        if isinstance(v, VIter) and v.how == "mapkeys":
+            m = v.parts[0]
+            return V(SetK(m.kind.key), m.kind.dom(m.term))
         if isinstance(v, (VList, VTuple)):
             if not v.items:
                 raise Untranslatable("set of empty python list (element kind unknown)")
@@ -1227,10 +1259,12 @@ class Engine:
         st0 = st.copy()
         sink = []
         self.sinks.append(sink)
+        self.no_prune += 1
         try:
             outs = list(self.ev(e, st0))
         finally:
             self.sinks.pop()
+            self.no_prune -= 1
         return self.merge_outcomes(outs, sink, base, st, want_bool, e)
 
     def merge_outcomes(self, outs, sink, base, st, want_bool, e=None):
